@@ -267,3 +267,17 @@ func init() {
 		printGraph(m.G)
 	}
 }
+
+func init() {
+	debugHooks["prim"] = func(p *Prog, what string) {
+		for _, n := range []string{"isAtEnd", "peek", "peekNext", "advance", "match"} {
+			fn := p.Func("lexer.(*Scanner)." + n)
+			if fn == nil {
+				continue
+			}
+			for _, w := range primitiveWords(p, fn) {
+				fmt.Println(n, "::", w)
+			}
+		}
+	}
+}
